@@ -442,9 +442,18 @@ func opDet(args []string) string {
 		return "err " + cls
 	}
 	s := "ok " + canon.Hex(f1)
+	// the very same value again (Marshal may have touched it: Prepare)
+	if f1b, _, _, _ := doMarshal(p); !bytes.Equal(f1, f1b) {
+		return s + " !! C13:second-marshal-of-same-value-differs"
+	}
 	for i := 0; i < 16; i++ {
-		// rebuild the maps so that Go's randomised iteration order is re-drawn
-		q, _ := parsePDU(append([]string{typeName(p)}, canon.Tokens(p)...))
+		// rebuild the maps so that Go's randomised iteration order is re-drawn: from the value as Marshal
+		// left it (even rounds) and from the value as given (odd rounds)
+		src := append([]string{typeName(p)}, canon.Tokens(p)...)
+		if i%2 == 1 {
+			src = args
+		}
+		q, _ := parsePDU(src)
 		f2, _, _, _ := doMarshal(q)
 		if !bytes.Equal(f1, f2) {
 			return s + " !! C13:nondeterministic"
@@ -543,4 +552,56 @@ func opWFail(args []string) string {
 	}
 	_, _ = pdu.Marshal(&failingWriter{left: atoi(args[0])}, p)
 	return "wfail done"
+}
+
+// opRespBatch: C05 clause 3.  `respbatch <seq> <seq> <seq>`: for every request type, build the responses for
+// several received requests BEFORE sending any of them (a pipelining server does) and check each carries
+// its own request's sequence number and the paired command_id, in the struct and in the marshalled octets.
+func opRespBatch(args []string) string {
+	if len(args) == 0 {
+		return "bad-op"
+	}
+	var seqs []int32
+	for _, a := range args {
+		v, err := strconv.ParseInt(a, 10, 32)
+		if err != nil || v <= 0 {
+			return "bad-op"
+		}
+		seqs = append(seqs, int32(v))
+	}
+	count := 0
+	for _, t := range canon.Types() {
+		var reqs, resps []interface{}
+		for _, s := range seqs {
+			p := reflect.New(t).Interface()
+			r, ok := p.(pdu.Responsable)
+			if !ok {
+				break
+			}
+			reflect.ValueOf(p).Elem().FieldByName("Header").Set(reflect.ValueOf(pdu.Header{Sequence: s}))
+			reqs = append(reqs, p)
+			resps = append(resps, r.Resp())
+		}
+		if len(reqs) == 0 {
+			continue
+		}
+		count++
+		for i, s := range seqs {
+			reqFrame, cls, _, _ := doMarshal(reqs[i])
+			if cls != "nil" {
+				return fmt.Sprintf("request-marshal-failed type=%s !! C05:resp-batch", t.Name())
+			}
+			if got := pdu.ReadSequence(resps[i]); got != s {
+				return fmt.Sprintf("type=%s request=%d response-carries=%d !! C05:resp-foreign-sequence type=%s", t.Name(), s, got, t.Name())
+			}
+			f, cls, _, _ := doMarshal(resps[i])
+			if cls != "nil" || len(f) < 16 {
+				return fmt.Sprintf("type=%s response-marshal-failed !! C05:resp-batch", t.Name())
+			}
+			if int32(be32(f[12:])) != s || be32(f[4:]) != be32(reqFrame[4:])|0x80000000 {
+				return fmt.Sprintf("type=%s request=%d frame=%s !! C05:resp-foreign-sequence type=%s", t.Name(), s, canon.Hex(f[:16]), t.Name())
+			}
+		}
+	}
+	return fmt.Sprintf("ok types=%d", count)
 }
